@@ -179,6 +179,11 @@ def _one_history(rng, res, DrawSet):
     order = []  # for position classes only
     tap = RandomTap(seed=rng.randrange(1 << 30), keep_log=False)
     mids = empt = 0
+    # how often the monitor LOOKS is part of the history: in half of the histories the read-only observations (len, iteration,
+    # membership) are made after every operation, in the other half only now and then, so that several mutations pass unobserved
+    # between two looks (an implementation that refreshes a view only when it notices a change is found there)
+    sparse = rng.random() < 0.5
+    res.count("histories_observed_sparsely" if sparse else "histories_observed_after_every_operation")
 
     def compare(after):
         n = sut("len", len, D)
@@ -205,10 +210,13 @@ def _one_history(rng, res, DrawSet):
             if op == "add":
                 if x in M:
                     res.count("add_present")
-                    before = sut("iter", list, D)
-                    sut("add", D.add, x)
-                    if sut("iter", list, D) != before:
-                        res.violate("add-present-changed-iteration", after=k, element=x, ops=ops); return
+                    if sparse and rng.random() < 0.85:
+                        sut("add", D.add, x)
+                    else:
+                        before = sut("iter", list, D)
+                        sut("add", D.add, x)
+                        if sut("iter", list, D) != before:
+                            res.violate("add-present-changed-iteration", after=k, element=x, ops=ops); return
                 else:
                     res.count("add_new")
                     sut("add", D.add, x); M.add(x); order.append(x)
@@ -219,6 +227,8 @@ def _one_history(rng, res, DrawSet):
                     res.count("remove_to_empty"); empt += 1
                 # position class by observable iteration order
                 try:
+                    if sparse:
+                        raise ValueError("not looking")
                     items = list(D)
                     slot = items.index(x)
                     if slot == len(items) - 1:
@@ -234,7 +244,8 @@ def _one_history(rng, res, DrawSet):
             elif op == "remove_absent":
                 if x in M:
                     continue
-                before = sut("iter", list, D)
+                look = not sparse or rng.random() < 0.15
+                before = sut("iter", list, D) if look else None
                 try:
                     D.remove(x)
                     res.violate("remove-absent-did-not-raise", after=k, element=x, ops=ops, universe=u); return
@@ -242,7 +253,7 @@ def _one_history(rng, res, DrawSet):
                     raise
                 except Exception:
                     res.count("remove_absent_raised")
-                if sut("iter", list, D) != before:
+                if look and sut("iter", list, D) != before:
                     res.violate("remove-absent-changed-structure", after=k, element=x, ops=ops); return
             elif op == "draw":
                 if not M:
@@ -254,6 +265,10 @@ def _one_history(rng, res, DrawSet):
                         res.violate("draw-returned-non-member", after=k, got=d, model=list(M), ops=ops); return
             elif op == "probe":
                 pass
+            if sparse and k < len(ops) - 1 and rng.random() < 0.85:
+                continue
+            if sparse:
+                res.count("sparse_looks")
             if not compare(k):
                 return
             res.seen("abstract_state", "%s:%s" % (kind, sorted(map(repr, M))))
